@@ -15,6 +15,8 @@ def op(name, params, serial, results, code, wire, zero_from, accept_extra="", re
     out.append(f"//@   params u, {', '.join(params)}")
     out.append(f"//@   returns ({', '.join(results)})")
     out.append(f"//@   requires client: u != nil && u.driver != nil{requires_extra}")
+    out.append("//@   attr noaxioms = time.")
+    out.append("//@   attr opaque = bcd.")
     out.append("//@   modifies sent.n, sent.kind, sent.iplen, sent.ipb, sent.port, sent.bytes, recv.n, recv.len, recv.bytes")
     out.append("//@   define N0 = old(sent.n)")
     out.append("//@   define B = sent.bytes[N0]")
@@ -57,6 +59,19 @@ def wdate(off, d):
 def hhmmok(h):
     return f"0 <= {h}.hours && {h}.hours <= 99 && 0 <= {h}.minutes && {h}.minutes <= 99"
 
+def rdate(off, d):
+    return f"wire.rdate(R, {off}, {d}.abs, {d}.ns, {d}.loc)"
+
+def rdt(off, d):
+    return f"wire.rdatetime(R, {off}, {d}.abs, {d}.ns, {d}.loc)"
+
+def rhm(off, h):
+    # a segment time outside its domain (non-decimal nibble, beyond 24:00, minutes > 59) comes back as 00:00
+    return f"(wire.rhhmmOK(R, {off}) ? wire.rhhmm(R, {off}, {h}.hours, {h}.minutes) : ({h}.hours == 0 && {h}.minutes == 0))"
+
+def rip(off, p):
+    return f"len({p}) == 16 && " + " && ".join(f"{p}[{12+i}] == R[{off+i}]" for i in range(4))
+
 ops = []
 ops.append(op("ActivateKeypads", ["controllerID", "readers"], "controllerID", ["ok", "err"], "0xa4",
     "wire.bool(B, 8, readers[1]) && wire.bool(B, 9, readers[2]) && wire.bool(B, 10, readers[3]) && wire.bool(B, 11, readers[4])", 12, OKBOOL, RESBOOL))
@@ -70,10 +85,10 @@ ops.append(op("RestoreDefaultParameters", ["controller"], "controller", ["ok", "
 ops.append(op("DeleteCard", ["deviceID", "cardNumber"], "deviceID", ["ok", "err"], "0x52", "wire.u32(B, 8) == cardNumber", 12, OKBOOL, RESBOOL))
 ops.append(op("GetCards", ["deviceID"], "deviceID", ["n", "err"], "0x58", "", 8, "", "n == wire.u32(R, 8)"))
 ops.append(op("GetEventIndex", ["deviceID"], "deviceID", ["res", "err"], "0xb4", "", 8, "", "res != nil && res.SerialNumber == deviceID && res.Index == wire.u32(R, 8)"))
-ops.append(op("GetTime", ["serialNumber"], "serialNumber", ["res", "err"], "0x32", "", 8, "",
-    "res != nil && res.SerialNumber == serialNumber"))
+ops.append(op("GetTime", ["serialNumber"], "serialNumber", ["res", "err"], "0x32", "", 8, "wire.rdtOK(R, 8)",
+    "res != nil && res.SerialNumber == serialNumber && " + rdt(8, "res.DateTime")))
 ops.append(op("SetTime", ["serialNumber", "datetime"], "serialNumber", ["res", "err"], "0x30",
-    "wire.datetime(B, 8, datetime.abs, datetime.loc)", 15, "", "res != nil && res.SerialNumber == serialNumber",
+    "wire.datetime(B, 8, datetime.abs, datetime.loc)", 15, "wire.rdtOK(R, 8)", "res != nil && res.SerialNumber == serialNumber && " + rdt(8, "res.DateTime"),
     domain="0 <= time.year(datetime.abs, datetime.loc) && time.year(datetime.abs, datetime.loc) <= 9999"))
 ops.append(op("OpenDoor", ["deviceID", "door"], "deviceID", ["res", "err"], "0x40", "B[8] == door", 9, OKBOOL,
     "res != nil && res.SerialNumber == deviceID && (res.Succeeded <==> R[8] == 1)"))
@@ -101,15 +116,15 @@ ops.append(op("SetAddress", ["serialNumber", "address", "mask", "gateway"], "ser
     invalid=f"!{ip4('address')} || !{ip4('mask')} || !{ip4('gateway')}"))
 ops.append(op("GetListener", ["serialNumber"], "serialNumber", ["addr", "interval", "err"], "0x92", "", 8, "",
     "addr.ip.kind == 1 && addr.ip.bits == wire.be32(R, 8) && addr.port == wire.u16(R, 12) && interval == R[14]"))
-ops.append(op("GetEvent", ["deviceID", "index"], "deviceID", ["res", "err"], "0xb0", "wire.u32(B, 8) == index", 12, "R[13] <= 1 && R[12] != 255",
+ops.append(op("GetEvent", ["deviceID", "index"], "deviceID", ["res", "err"], "0xb0", "wire.u32(B, 8) == index", 12, "R[13] <= 1 && R[12] != 255 && wire.rdtOK(R, 20)",
     "(wire.u32(R, 8) == 0 ==> res == nil) && (wire.u32(R, 8) != 0 ==> res != nil && res.SerialNumber == deviceID && res.Index == wire.u32(R, 8) && "
-    "res.Type == R[12] && (res.Granted <==> R[13] == 1) && res.Door == R[14] && res.Direction == R[15] && res.CardNumber == wire.u32(R, 16) && res.Reason == R[27])"))
+    "res.Type == R[12] && (res.Granted <==> R[13] == 1) && res.Door == R[14] && res.Direction == R[15] && res.CardNumber == wire.u32(R, 16) && res.Reason == R[27] && " + rdt(20, "res.Timestamp") + ")"))
 card = ("res.CardNumber == wire.u32(R, 8) && res.Doors != nil && fresh(res.Doors) && res.Doors[1] == R[20] && res.Doors[2] == R[21] && res.Doors[3] == R[22] && res.Doors[4] == R[23] && "
-        "res.PIN == wire.u24(R, 24)")
-ops.append(op("GetCardByIndex", ["deviceID", "index"], "deviceID", ["res", "err"], "0x5c", "wire.u32(B, 8) == index", 12, "",
+        "res.PIN == wire.u24(R, 24) && " + rdate(12, "res.From") + " && " + rdate(16, "res.To"))
+ops.append(op("GetCardByIndex", ["deviceID", "index"], "deviceID", ["res", "err"], "0x5c", "wire.u32(B, 8) == index", 12, "wire.bcdok(R, 12, 8)",
     f"((wire.u32(R, 8) == 0 || wire.u32(R, 8) == 4294967295) ==> res == nil) && (wire.u32(R, 8) != 0 && wire.u32(R, 8) != 4294967295 ==> res != nil && {card})"))
 ops.append(op("GetCardByID", ["deviceID", "cardNumber"], "deviceID", ["res", "err"], "0x5a", "wire.u32(B, 8) == cardNumber", 12,
-    "(wire.u32(R, 8) == 0 || wire.u32(R, 8) == cardNumber)",
+    "(wire.u32(R, 8) == 0 || wire.u32(R, 8) == cardNumber) && wire.bcdok(R, 12, 8)",
     f"(wire.u32(R, 8) == 0 ==> res == nil) && (wire.u32(R, 8) != 0 ==> res != nil && {card})"))
 doors = " && ".join(f"B[{20+i}] == card.Doors[{i+1}]" for i in range(4))
 ops.append(op("PutCard", ["deviceID", "card", "formats"], "deviceID", ["ok", "err"], "0x50",
@@ -118,7 +133,10 @@ ops.append(op("PutCard", ["deviceID", "card", "formats"], "deviceID", ["ok", "er
     invalid="card.CardNumber == 0 || card.CardNumber == 4294967295 || card.CardNumber == 16777215 || card.PIN > 999999 || "
             "(len(formats) > 0 && !(exists i int :: 0 <= i && i < len(formats) && (formats[i] == 0 || (formats[i] == 1 && uhppote.w26(card.CardNumber)))))"))
 ops.append(op("GetTimeProfile", ["deviceID", "profileID"], "deviceID", ["res", "err"], "0x98", "B[8] == profileID", 9,
-    "(R[8] == 0 || R[8] == profileID)", "(R[8] == 0 ==> res == nil) && (R[8] != 0 ==> res != nil && res.ID == R[8] && res.LinkedProfileID == R[36])"))
+    "(R[8] == 0 || R[8] == profileID) && wire.bcdok(R, 9, 8) && " + " && ".join(f"R[{17+i}] <= 1" for i in range(7)),
+    "(R[8] == 0 ==> res == nil) && (R[8] != 0 ==> res != nil && res.ID == R[8] && res.LinkedProfileID == R[36] && " + rdate(9, "res.From") + " && " + rdate(13, "res.To") + " && res.Weekdays != nil && fresh(res.Weekdays) && res.Segments != nil && fresh(res.Segments) && "
+    + " && ".join(f"(res.Weekdays[{d}] <==> R[{17+i}] == 1)" for i, d in enumerate([1, 2, 3, 4, 5, 6, 0])) + " && "
+    + " && ".join(f"{rhm(24+4*(k-1), f'res.Segments[{k}].Start')} && {rhm(26+4*(k-1), f'res.Segments[{k}].End')}" for k in (1, 2, 3)) + ")"))
 seg = lambda k: f"has(profile.Segments, {k}) && !time.lexLt2(profile.Segments[{k}].End.hours, profile.Segments[{k}].End.minutes, profile.Segments[{k}].Start.hours, profile.Segments[{k}].Start.minutes)"
 wkp = " && ".join(f"wire.bool(B, {17+i}, profile.Weekdays[{d}])" for i, d in enumerate([1, 2, 3, 4, 5, 6, 0]))
 segw = " && ".join(f"wire.hhmm(B, {24+4*(k-1)}, profile.Segments[{k}].Start.hours, profile.Segments[{k}].Start.minutes) && wire.hhmm(B, {26+4*(k-1)}, profile.Segments[{k}].End.hours, profile.Segments[{k}].End.minutes)" for k in (1, 2, 3))
@@ -127,15 +145,16 @@ ops.append(op("SetTimeProfile", ["deviceID", "profile"], "deviceID", ["ok", "err
     f"B[8] == profile.ID && {wdate(9, 'profile.From')} && {wdate(13, 'profile.To')} && {wkp} && {segw} && B[36] == profile.LinkedProfileID",
     37, OKBOOL, RESBOOL, domain=f"{dateok('profile.From')} && {dateok('profile.To')} && {segok}",
     invalid=f"(profile.From.abs == 0 && profile.From.ns == 0) || (profile.To.abs == 0 && profile.To.ns == 0) || !({seg(1)}) || !({seg(2)}) || !({seg(3)})"))
-ops.append(op("GetDevice", ["serialNumber"], "serialNumber", ["res", "err"], "0x94", "", 8, "",
-    "res != nil && res.SerialNumber == serialNumber && res.Version == 256 * R[26] + R[27] && len(res.IpAddress) == 16 && res.IpAddress[12] == R[8] && res.IpAddress[15] == R[11] && "
-    "len(res.MacAddress) == 6 && res.MacAddress[0] == R[20] && res.MacAddress[5] == R[25]"))
-ops.append(op("GetStatus", ["serialNumber"], "serialNumber", ["res", "err"], "0x20", "", 8, "",
+ops.append(op("GetDevice", ["serialNumber"], "serialNumber", ["res", "err"], "0x94", "", 8, "wire.bcdok(R, 28, 4)",
+    "res != nil && res.SerialNumber == serialNumber && res.Version == 256 * R[26] + R[27] && " + rip(8, "res.IpAddress") + " && " + rip(12, "res.SubnetMask") + " && " + rip(16, "res.Gateway") + " && "
+    "len(res.MacAddress) == 6 && " + " && ".join(f"res.MacAddress[{i}] == R[{20+i}]" for i in range(6)) + " && " + rdate(28, "res.Date")))
+ops.append(op("GetStatus", ["serialNumber"], "serialNumber", ["res", "err"], "0x20", "", 8,
+    "R[13] <= 1 && " + " && ".join(f"R[{28+i}] <= 1" for i in range(8)) + " && wire.rdtOK(R, 20)",
     "res != nil && res.SerialNumber == serialNumber && res.SystemError == R[36] && res.SequenceId == wire.u32(R, 40) && res.SpecialInfo == R[48] && res.RelayState == R[49] && res.InputState == R[50] && "
     "(res.DoorState[1] <==> R[28] == 1) && (res.DoorState[2] <==> R[29] == 1) && (res.DoorState[3] <==> R[30] == 1) && (res.DoorState[4] <==> R[31] == 1) && "
     "(res.DoorButton[1] <==> R[32] == 1) && (res.DoorButton[2] <==> R[33] == 1) && (res.DoorButton[3] <==> R[34] == 1) && (res.DoorButton[4] <==> R[35] == 1) && "
     "(wire.u32(R, 8) == 0 ==> res.Event.Index == 0 && res.Event.Type == 0 && res.Event.CardNumber == 0 && res.Event.Timestamp.abs == 0) && "
-    "(wire.u32(R, 8) != 0 ==> res.Event.Index == wire.u32(R, 8) && res.Event.Type == R[12] && (res.Event.Granted <==> R[13] == 1) && res.Event.Door == R[14] && res.Event.Direction == R[15] && res.Event.CardNumber == wire.u32(R, 16) && res.Event.Reason == R[27])"))
+    "(wire.u32(R, 8) != 0 ==> res.Event.Index == wire.u32(R, 8) && res.Event.Type == R[12] && (res.Event.Granted <==> R[13] == 1) && res.Event.Door == R[14] && res.Event.Direction == R[15] && res.Event.CardNumber == wire.u32(R, 16) && res.Event.Reason == R[27] && " + rdt(20, "res.Event.Timestamp") + ")"))
 
 print("// ---- GENERATED by /verif/tools/gen_op_contracts.py: begin ----")
 print()
